@@ -146,21 +146,49 @@ def parseStream (expected : Option String) (tid : Bool) (s : Ipc) : Except Err P
 
 /-! ## `post` -/
 
-def trimS (s : String) : String := s.trimAscii.toString
-def lowerS (s : String) : String := s.toLower
+/-- ASCII white space (`strings.TrimSpace` also trims U+0085/U+00A0 and other Unicode spaces,
+which cannot occur in a header value that net/http accepted). -/
+def isSp (c : Char) : Bool :=
+  c = ' ' || c = '\t' || c = '\n' || c = '\r' || c = Char.ofNat 11 || c = Char.ofNat 12
+
+def trimLeft : List Char → List Char
+  | [] => []
+  | c :: r => if isSp c then trimLeft r else c :: r
+
+def trimChars (l : List Char) : List Char := (trimLeft (trimLeft l).reverse).reverse
+
+/-- `strings.Split(s, ",")` on characters: always at least one (possibly empty) piece. -/
+def splitComma : List Char → List (List Char)
+  | [] => [[]]
+  | c :: r =>
+    match splitComma r with
+    | [] => [[c]]
+    | h :: t => if c = ',' then [] :: h :: t else (c :: h) :: t
+
+def trimS (s : String) : String := String.ofList (trimChars s.toList)
+def lowerS (s : String) : String := String.ofList (s.toList.map Char.toLower)
 
 def encNameOk (n : String) : Bool := n = "zstd" || n = "gzip" || n = "identity"
 
 /-- `validateClientContentEncoding`. -/
 def validEnc (h : String) : Bool :=
   if trimS h = "" then true
-  else (h.splitOn ",").all (fun raw => encNameOk (lowerS (trimS raw)))
+  else (splitComma h.toList).all (fun raw =>
+    encNameOk (String.ofList ((trimChars raw).map Char.toLower)))
 
 structure HttpOk where
   rpcErr : Bool
   streams : List Ipc
   trail : Nat
   deriving Repr, DecidableEq
+
+/-- The encoding `post` acts on: the standard header unless blank, else the custom one. -/
+def encOf (ce xce : String) : String := if trimS ce = "" then trimS xce else trimS ce
+
+/-- Length of the decoded body `post` goes on with (none = `DecodeContentEncoding` failed);
+identity / no encoding leaves the body as it is. -/
+def decodedLen (elen : Nat) (enc : String) (dec : Option Nat) : Option Nat :=
+  if enc ≠ "" ∧ lowerS enc ≠ "identity" then dec else some elen
 
 /-- `post` from the point where `c.inner.Do(req)` returned. -/
 def post (cfg : Cfg) : Resp → Except Err HttpOk
@@ -169,17 +197,14 @@ def post (cfg : Cfg) : Resp → Except Err HttpOk
     if clen > (cfg.maxEnc : Int) then .error .transport
     else if rdErr then .error .transport
     else if elen > cfg.maxEnc then .error .transport
+    else if validEnc (encOf ce xce) = false then .error .transport
     else
-      let enc := if trimS ce = "" then trimS xce else trimS ce
-      if validEnc enc = false then .error .transport
-      else
-        let dlen : Option Nat := if enc ≠ "" ∧ lowerS enc ≠ "identity" then dec else some elen
-        match dlen with
-        | none => .error .transport
-        | some n =>
-          if n > cfg.maxDec then .error .transport
-          else if status < 200 ∨ status ≥ 300 then .error (.status status)
-          else .ok ⟨rpcErr, streams, trail⟩
+      match decodedLen elen (encOf ce xce) dec with
+      | none => .error .transport
+      | some n =>
+        if n > cfg.maxDec then .error .transport
+        else if status < 200 ∨ status ≥ 300 then .error (.status status)
+        else .ok ⟨rpcErr, streams, trail⟩
 
 /-- `parseMain`. -/
 def parseMain (r : HttpOk) (expected : Option String) (tid : Bool) : Except Err Parsed :=
